@@ -213,12 +213,15 @@ class UtilityParity(ClassificationMoment):
             # Constraints on the final group are redundant, so they are not
             # included in the basis.
             for g in group_vals[:-1]:
-                if ("+", e, g) in self.index:
-                    self.pos_basis.loc[("+", e, g), i] = 1
-                if ("-", e, g) in self.index:
-                    self.neg_basis.loc[("-", e, g), i] = 1
+                if ("+", e, g) not in self.index:
+                    # no sample has this event and group: a basis vector for it would be zero
+                    continue
+                self.pos_basis.loc[("+", e, g), i] = 1
+                self.neg_basis.loc[("-", e, g), i] = 1
                 self.neg_basis_present.at[i] = True
                 i += 1
+        self.pos_basis = self.pos_basis.iloc[:, :i]
+        self.neg_basis = self.neg_basis.iloc[:, :i]
 
     def gamma(self, predictor: Callable) -> pd.Series:
         """Calculate the degree to which constraints are currently violated by the predictor."""
